@@ -48,6 +48,7 @@
 #include <memory>
 #include <random>
 #include <sstream>
+#include <set>
 #include <string>
 #include <type_traits>
 #include <vector>
@@ -368,6 +369,14 @@ char const *const ctor_names[] = {"variate(gen,dist(min,max))", "variate(gen,par
                                   "dist(param)(gen)"};
 
 // One uniform_int case: interval [a,b] of RT's base type, one engine seed, n draws.
+// a documented type identity, judged at run time (a tree that breaks it must yield a violation, not a harness that does
+// not build); reported once per key
+inline void type_claim(bool holds, std::string const &key, char const *what)
+{
+  static std::set<std::string> seen;
+  if (!holds && seen.insert(key).second)
+    vf::violation(key + "/type-identity", "mismatch", what);
+}
 template <class RT, class E>
 void int_case(char const *family, i128 a, i128 b, std::uint64_t seed, unsigned n, unsigned ctor)
 {
@@ -376,7 +385,7 @@ void int_case(char const *family, i128 a, i128 b, std::uint64_t seed, unsigned n
   using D = fr::distribution::basic<P>;
   using V = fr::variate<typename E::f, D>;
   using SD = std::uniform_int_distribution<base>;
-  static_assert(std::is_same_v<typename D::wrapped_distribution, SD>, "documented wrapped distribution");
+  type_claim(std::is_same_v<typename D::wrapped_distribution, SD>, std::string("uniform_int<") + tn<RT>() + ">/wrapped-distribution", "documented wrapped distribution: std::uniform_int_distribution<base>");
   static_assert(std::is_same_v<typename D::result_type, RT>);
   static_assert(std::is_same_v<typename V::result_type, RT>);
   ctor %= 4;
@@ -586,7 +595,7 @@ template <class En, int N, class E>
 void enum_entry()
 {
   using base = std::underlying_type_t<En>;
-  static_assert(std::is_same_v<typename frp::uniform_int<En>::distribution, std::uniform_int_distribution<base>>);
+  type_claim(std::is_same_v<typename frp::uniform_int<En>::distribution, std::uniform_int_distribution<base>>, std::string("uniform_int<") + tn<En>() + ">/default-distribution", "default Distribution argument selects std::uniform_int_distribution<underlying type>");
   std::string const e = std::string("uniform_enum<") + tn<En>() + ">/" + E::name;
   if (!vf::entry_enabled(e))
     return;
@@ -624,11 +633,18 @@ void enum_entry()
       default:
       {
         auto p = frp::make_uniform_enum_advanced<probe_wrapper, En>();
-        static_assert(std::is_same_v<typename decltype(p)::distribution, probe_dist<base>>);
+        // judged at run time (not by static_assert: a tree that breaks this must yield a violation, not a harness
+        // that does not build): the distribution wrapped for a user-supplied Distribution argument is the user's
+        if (!std::is_same_v<typename decltype(p)::distribution, probe_dist<base>>)
+          vf::violation("make_uniform_enum_advanced<" + std::string(tn<En>()) + ",user-distribution>/" + E::name + "/wrapped-distribution-type",
+                        "mismatch", "parameters::distribution is not the distribution selected by the Distribution argument");
         std::uint64_t const c0 = probe_log::constructed, d0 = probe_log::draws;
         enum_run<En, E>("make_uniform_enum_advanced<" + std::string(tn<En>()) + ",user-distribution>/" + E::name, p, 0, N - 1, seed,
                         "make_uniform_enum_advanced<user distribution>");
         VF_COUNT("enum/make_uniform_enum_advanced-user-distribution");
+        if (probe_log::constructed == c0)
+          vf::violation("make_uniform_enum_advanced<" + std::string(tn<En>()) + ",user-distribution>/" + E::name + "/user-distribution-never-constructed",
+                        "mismatch", "no object of the user-supplied distribution was constructed for these draws");
         if (probe_log::constructed != c0 && (probe_log::last_a != 0 || probe_log::last_b != N - 1))
           vf::violation("make_uniform_enum_advanced<" + std::string(tn<En>()) + ",user-distribution>/" + E::name + "/parameters",
                         "mismatch", "user distribution constructed with [" + s128(probe_log::last_a) + "," + s128(probe_log::last_b) + "]");
@@ -942,7 +958,7 @@ void fp_entry()
   using P = std::conditional_t<Normal, frp::normal<RT>, frp::uniform_real<RT>>;
   using D = fr::distribution::basic<P>;
   using SD = std::conditional_t<Normal, std::normal_distribution<F>, std::uniform_real_distribution<F>>;
-  static_assert(std::is_same_v<typename D::wrapped_distribution, SD>, "documented wrapped distribution");
+  type_claim(std::is_same_v<typename D::wrapped_distribution, SD>, std::string(Normal ? "normal<" : "uniform_real<") + tn<RT>() + ">/wrapped-distribution", "documented wrapped distribution");
   static_assert(std::is_same_v<typename D::result_type, RT>);
   std::string const fam = Normal ? "normal" : "uniform_real";
   std::string const e = fam + "<" + tn<RT>() + ">/" + E::name;
